@@ -222,6 +222,17 @@ def tree_eval(prog):
             if list(g(e, "path")) != pth or list(g(e, "relative_path")) != pth or list(g(e, "absolute_path")) != pth:
                 out["errors-untouched"] = "after trees were built from it, an error filed at %r has path %r" % (pth, list(g(e, "path")))
                 break
+        # ... and a member of the object that has no errors is still "an element that exists in the instance": the name recorded at
+        # the node (a string) cannot vouch for the object's members, and must not be asked
+        try:
+            quiet2 = tree2["a.b"]
+            if not (isinstance(quiet2, Obj) and g(quiet2, "total_errors") == 0):
+                out["name-instance"] = "an error-free member of a node whose recorded instance is a member name does not give an empty tree"
+            else:
+                out["name-instance"] = None
+        except PyRaise as pr:
+            out["name-instance"] = ("looking up an error-free member of the object raises %s when the node's recorded instance is a member *name* (a propertyNames "
+                                    "error was filed there last: its instance is the name, a string, which is then subscripted)" % pr.name)
         for node, idx, exc in ((tree, "z", "KeyError"), (x, 5, "IndexError")):
             try:
                 node[idx]
